@@ -138,6 +138,15 @@ def name_variants(program):
             out.append((f"{st}s-reversed-sort", dict(zip(sorted(ns), sorted(ns, reverse=True)))))
     out.append(("long-unicode-spaces", {n: f"élément {n} – with spaces and a rather long name ({i})" for i, n in enumerate(allnames)}))
     out.append(("zz-prefix", {n: "zz" + n for n in allnames}))
+    others = {st: ns for st, ns in names.items() if st not in ("task", "worker")}
+    if tasks and others:
+        # every other named element (constraint, buffer, indicator, selection ...) takes the name of a task: the
+        # registries are separate, names only have to be distinct inside each of them
+        m = {}
+        for st, ns in others.items():
+            for n, t in zip(ns, tasks):
+                m[n] = t
+        out.append(("named-like-tasks", m))
     if tasks and workers:
         # names shared across kinds: the first task takes the first worker's name and vice versa
         out.append(("shared-across-kinds", {tasks[0]: workers[0], workers[0]: tasks[0]}))
@@ -221,11 +230,11 @@ def programs(tier):
                                                  new("ObjectiveTasksStartLatest", "ob")])))
     out.append(("cumulative+idle", prog(3, [fixed("a", 1), fixed("b", 2), fixed("c", 1), cumul("k", 2), worker("w"), req("a", "k"), req("b", "k"), req("c", "w"), req("a", "w"),
                                             new("IndicatorResourceIdle", "i", resource=R("w"))])))
+    out.append(("groups", prog(4, [fixed("a", 1), fixed("b", 1, optional=True), fixed("c", 2), con("OrderedTaskGroup", "g", list_of_tasks=[R("a"), R("b"), R("c")], kind="lax"),
+                                   con("UnorderedTaskGroup", "u", list_of_tasks=[R("a"), R("c")], time_interval_length=3)])))
     if tier == "thorough":
         out.append(("nondelay+optional", prog(3, [fixed("a", 1, optional=True), fixed("b", 1), fixed("c", 1, optional=True), worker("w"), req("a", "w"), req("b", "w"), req("c", "w"),
                                                   con("ResourceNonDelay", "k", resource=R("w"))])))
-        out.append(("groups", prog(4, [fixed("a", 1), fixed("b", 1, optional=True), fixed("c", 2), con("OrderedTaskGroup", "g", list_of_tasks=[R("a"), R("b"), R("c")], kind="lax"),
-                                       con("UnorderedTaskGroup", "u", list_of_tasks=[R("a"), R("c")], time_interval_length=3)])))
         out.append(("schedule-n", prog(3, [fixed("a", 1), fixed("b", 1), fixed("c", 1), con("ScheduleNTasksInTimeIntervals", "k", list_of_tasks=[R("a"), R("b"), R("c")],
                                                                                              nb_tasks_to_schedule=2, list_of_time_intervals=[(0, 2), (1, 3)], kind="min")])))
     return out
